@@ -360,6 +360,11 @@ impl Value {
     }
 
     pub fn aggressively_to_num(s: impl AsRef<str> + Into<String>) -> Result<f64, EvalError> {
+        match Value::from_string(s.as_ref()) {
+            Value::Float(f) => return Ok(f.0),
+            Value::Int(i) => return Ok(i as f64),
+            _ => {}
+        }
         // Handle cases like
         // 1,000,000
         match Value::from_string(
